@@ -211,7 +211,8 @@ package massdb_v1
 
 // ---- file effects (C11): who may remove files, and which
 //@ func (*MassDBV1).Plot
-//@   attr effect:fs.remove
+//@   attr effect:fs.remove, lockinv
+//@   requires lock-entry: mdb != nil && !held[addr(mdb.stopLock)]
 //@ func CreateDB
 //@   attr effect:fs.remove
 //@ func CreateHashMap
@@ -241,3 +242,13 @@ package massdb_v1
 //@   assert-at call WriteAt#4 then-the-second-element: arg1 == x && arg2 == (lastresult("FB#2") - doubleStartPoint) * recordSize * 2 + recordSize
 //@ func (*MassDBV1).prePlotWork
 //@   assert-at join y every-preimage-has-a-slot-inside-the-table: 0 <= y && y < hmA.HashMap.volume
+
+// ---- stop signalling of a running plot (C13): the stop channel of a plot is closed at most once, and never when nil
+//@ type MassDBV1 lock stopLock invariant !this.stopped && this.stopPlotCh != nil ==> !closed[this.stopPlotCh] havocs closed, MassDBV1.stopped
+//@ type MassDBV1 protects stopped reads held[addr(this.stopLock)] writes held[addr(this.stopLock)]
+//@ type MassDBV1 protects stopPlotCh reads true writes held[addr(this.stopLock)]
+//@ func (*MassDBV1).StopPlot
+//@   requires mdb != nil && !held[addr(mdb.stopLock)]
+//@ func (*MassDBV1).StopPlot$1
+//@   attr modular, lockinv
+//@   requires lock-entry: mdb != nil && !held[addr(mdb.stopLock)]
